@@ -588,7 +588,7 @@ m('c11-cbrt-trim-not-applied-to-scale', ['C11'], 'scale-bookkeeping', [
   ('src/arithmetic/cbrt.rs', "    new_scale -= digits_to_trim as i64;\n", "    new_scale -= digits_to_trim as i64 - 1;\n")],
   'scale adjusted by one digit too few after trimming')
 # ---- C02 order table
-m('c02-cmp-early-return-skips-sign', ['C02'], 'order-table[', [
+m('c02-cmp-early-return-skips-sign', ['C02', 'C19'], 'order-table[', [
   ('src/impl_cmp.rs', "                res.reverse()\n            }\n        };", "                return res.reverse();\n            }\n        };")],
   'scale-overflow arm returns before the sign correction: negative operands with huge scale gaps ordered backwards')
 m('c02-cmp-less-arm-not-reversed', ['C02'], 'order-table[', [
@@ -698,7 +698,7 @@ m('c17-visit-u64-as-i64', ['C17'], 'visit_u64:value-exact', [
         Ok(BigDecimal::from(value as i64))""")],
   'u64 above i64::MAX wraps negative')
 # ---- C18 normalized()
-m('c18-normalized-scale-raised', ['C18'], 'normalized:strip', [
+m('c18-normalized-scale-raised', ['C18', 'C19'], 'normalized:strip', [
   ('src/lib.rs', "        let scale = self.scale - trailing_count as i64;", "        let scale = self.scale + trailing_count as i64;")],
   'scale moved the wrong way when zeros are stripped')
 m('c18-normalized-counts-leading', ['C18'], 'normalized:strip', [
@@ -724,3 +724,78 @@ m('c04-plain-clear-wipes-moved-digits', ['C04'], 'clear-stops-before-moved-digit
 m('c16-no-integer-clear-wipes-moved-digits', ['C16'], 'clear-stops-before-moved-digits', [
   ('src/impl_fmt.rs', "fill_slice(&mut digits_ascii_be[..sig_digit_count.min(sig_digit_idx)], b'0');", "fill_slice(&mut digits_ascii_be[..sig_digit_count], b'0');")],
   '{:.N} of a pure fraction: the zero fill overwrites moved significant digits')
+# ---- C03 feeding shape
+m('c03-negative-scale-streams-zeros', ['C03', 'C19'], 'same-call-sequence', [
+  ('src/lib.rs', """        } else if scale < 0 && !zero {
+            dec_str.push_str(&"0".repeat(self.scale.abs() as usize));
+        }
+        dec_str.hash(state);""", """        } else if scale < 0 && !zero {
+            state.write(dec_str.as_bytes());
+            let mut left = self.scale.abs() as usize;
+            while left > 0 {
+                let n = left.min(64);
+                state.write(&[b'0'; 64][..n]);
+                left -= n;
+            }
+            state.write_u8(0xff);
+            return;
+        }
+        dec_str.hash(state);""")],
+  'negative scales stream the zeros through several write calls: same bytes, different call sequence')
+# ---- C07 with_prec tie rule
+m('c07-with-prec-uses-default-mode', ['C07'], 'ties-away-from-zero-not-configurable', [
+  ('src/lib.rs', """            Ordering::Greater => {
+                let diff = digits - prec;
+                let p = ten_to_the(diff);""", """            Ordering::Greater if false => unreachable!(),
+            Ordering::Greater => {
+                return self.with_scale_round(self.scale - (digits - prec) as i64, RoundingMode::default());
+            }
+            #[allow(unreachable_patterns)]
+            Ordering::Greater => {
+                let diff = digits - prec;
+                let p = ten_to_the(diff);""")],
+  'with_prec delegates to the configurable default mode (HalfEven by default): 12.5.with_prec(2) = 12')
+m('c07-with-prec-halfeven-literal', ['C07'], 'ties-away-from-zero-not-configurable', [
+  ('src/lib.rs', """            Ordering::Greater => {
+                let diff = digits - prec;
+                let p = ten_to_the(diff);""", """            Ordering::Greater if false => unreachable!(),
+            Ordering::Greater => {
+                return self.with_scale_round(self.scale - (digits - prec) as i64, RoundingMode::HalfEven);
+            }
+            #[allow(unreachable_patterns)]
+            Ordering::Greater => {
+                let diff = digits - prec;
+                let p = ten_to_the(diff);""")],
+  'with_prec delegates with a HalfEven literal')
+# ---- C15 MIN boundary
+m('c15-to-i64-wrapping-neg', ['C15'], 'to_i64:min-boundary', [
+  ('src/impl_num.rs', """                self.digits.to_u64().and_then(
+                    |d| match d.cmp(&(i64::MAX as u64 + 1)) {
+                        Ordering::Less => Some((d as i64).neg()),
+                        Ordering::Equal => Some(i64::MIN),
+                        Ordering::Greater => None,
+                    }
+                )""", """                self.digits.to_u64().map(|d| (d as i64).wrapping_neg())""")],
+  'negative magnitudes in (2^63, 2^64) wrap to positive i64 values')
+m('c15-to-i128-boundary-off-by-one', ['C15'], 'to_i128:min-boundary', [
+  ('src/impl_num.rs', "|d| match d.cmp(&(i128::MAX as u128 + 1)) {", "|d| match d.cmp(&(i128::MAX as u128)) {")],
+  'i128 boundary compared against MAX instead of MAX+1: -i128::MAX maps to MIN')
+m('c15-to-i64-greater-arm-casts', ['C15'], 'to_i64:min-boundary', [
+  ('src/impl_num.rs', """                        Ordering::Equal => Some(i64::MIN),
+                        Ordering::Greater => None,
+                    }
+                )
+            }
+            Sign::Plus | Sign::Minus => self.to_owned_with_scale(0).int_val.to_i64(),""", """                        Ordering::Equal => Some(i64::MIN),
+                        Ordering::Greater => Some(d as i64),
+                    }
+                )
+            }
+            Sign::Plus | Sign::Minus => self.to_owned_with_scale(0).int_val.to_i64(),""")],
+  'out-of-range negative magnitudes reinterpreted')
+# ---- C02 scan gap
+m('c02-cmp-tail-skips-pulled-digit', ['C02', 'C19'], 'no-skipped-element', [
+  ('src/impl_cmp.rs', """            (Some(&ai), None) => {
+                if ai == 0 && a_it.all(Zero::is_zero) {""", """            (Some(_), None) => {
+                if a_it.all(Zero::is_zero) {""")],
+  'the digit already pulled from a is not checked before the rest is scanned: a = b*10^s + d*10^(s-1) compares Equal')
